@@ -38,6 +38,15 @@ inductive Kind where | list | set | tuple | sequence | blist | bset | btuple
 inductive OptStyle where | typing | unionNone | noneFirst | pipe
   deriving DecidableEq, Repr
 
+/-- the kinds of endpoint classes that are neither one of the listed builtin scalars, nor a dataclass of the world, nor
+a plain `enum.Enum`: a field of such a type is NOT builtin-valued (`is_builtin_type` is exact membership in
+`[int, float, str, bool, datetime, NoneType]`, not `issubclass`), and it is an enum iff the class is an `Enum` -/
+inductive ClassKind where
+  | sub (b : Builtin)       -- `class S<b><i>(<b>)`: a proper subclass of a builtin scalar (`class Meters(float)`)
+  | mixEnum (b : Builtin)   -- `class M<b><i>(<b>, Enum)` / `IntEnum` / `StrEnum`: an enum with a scalar mix-in
+  | plain                   -- `class P<i>`: any other class that is not a node of the diagram
+  deriving DecidableEq, Repr
+
 inductive Ann where
   | builtin (b : Builtin)
   | cls (i : Nat)                       -- a dataclass of the world (`C<i>`)
@@ -47,6 +56,7 @@ inductive Ann where
   | typeOf (a : Ann)                    -- `Type[a]`
   | fwd (a : Ann)                       -- `a` written as a string literal / forward reference
   | union (a b : Ann) (withNone : Bool)  -- `Union[a, b]` / `Union[a, b, None]`, a ≠ b, neither is None
+  | ext (k : ClassKind) (i : Nat)       -- a class of kind `k` (see `ClassKind`)
   deriving DecidableEq, Repr
 
 /-- `typing.get_type_hints`: forward references evaluate to what they name -/
@@ -59,6 +69,7 @@ def resolve : Ann → Ann
   | .builtin b => .builtin b
   | .cls i => .cls i
   | .enum i => .enum i
+  | .ext k i => .ext k i
 
 /-- a runtime type object: `NoneType` or (the object denoted by) a resolved annotation -/
 inductive Arg where
@@ -163,6 +174,7 @@ inductive Leaf where
   | noneType
   | cls (i : Nat)
   | enum (i : Nat)
+  | ext (k : ClassKind) (i : Nat)          -- subclass of a builtin scalar / mix-in enum / other class
   | other                                  -- a typing construct, not a class
   deriving DecidableEq, Repr
 
@@ -171,9 +183,11 @@ def Arg.leaf : Arg → Leaf
   | .ann (.builtin b) => .builtin b
   | .ann (.cls i) => .cls i
   | .ann (.enum i) => .enum i
+  | .ann (.ext k i) => .ext k i
   | .ann _ => .other
 
-/-- `x in [int, float, str, bool, datetime, NoneType]` -/
+/-- `x in [int, float, str, bool, datetime, NoneType]`: exact membership — a proper subclass of a builtin scalar
+(`Leaf.ext (.sub b) _`, `Leaf.ext (.mixEnum b) _`) is not in the list -/
 def Leaf.isBuiltin : Leaf → Bool
   | .builtin _ => true
   | .noneType => true
@@ -181,6 +195,7 @@ def Leaf.isBuiltin : Leaf → Bool
 
 def Leaf.isEnum : Leaf → Bool
   | .enum _ => true
+  | .ext (.mixEnum _) _ => true
   | _ => false
 
 inductive Tri where | t | f | err
@@ -192,6 +207,7 @@ def Tri.ofBool : Bool → Tri | true => .t | false => .f
 def issubclassEnum (x : Arg) : Tri :=
   match x.leaf with
   | .enum _ => .t
+  | .ext (.mixEnum _) _ => .t
   | .other => .err
   | _ => .f
 
@@ -213,6 +229,13 @@ def isOneToOne (q : Quirks) (t : Ann) : Bool := !isContainer t && !isBuiltinType
 
 /-- `is_one_to_many_relationship` -/
 def isOneToMany (q : Quirks) (t : Ann) : Bool := isContainer t && !isBuiltinType q t && !isOptional q t
+
+/-- `container_type`: `None` unless `is_container`, then the origin -/
+def containerType (t : Ann) : Option Origin := if isContainer t then some (getOrigin t) else none
+
+/-- `is_iterable`: `is_one_to_many_relationship and hasattr(self.container_type, "__iter__")` — of the container
+classes (`container_types`) only `type` has no `__iter__` -/
+def isIterable (q : Quirks) (t : Ann) : Bool := isOneToMany q t && getOrigin t != .type
 
 /-- the seven classifications the property names -/
 structure Flags where
@@ -243,6 +266,7 @@ def specEndpoint : Ann → Leaf
   | .builtin b => .builtin b
   | .cls i => .cls i
   | .enum i => .enum i
+  | .ext k i => .ext k i
   | .optional _ a => specEndpoint a
   | .container _ a => specEndpoint a
   | .typeOf a => specEndpoint a
